@@ -138,13 +138,7 @@ struct RunSpec<'a> {
 /// A clause "Cxx/..." belongs to property Cxx. Scenarios shared between checks evaluate the
 /// oracles of several properties; a check only reports clauses of its own property (plus
 /// untagged ones such as panics) so that `VIOLATION property=<id>` is attributed correctly.
-fn foreign_clause(own: &str, clause: &str) -> bool {
-    if let Some((p, _)) = clause.split_once('/') {
-        let is_prop = p.len() >= 3 && p.starts_with('C') && p[1..].chars().all(|c| c.is_ascii_digit());
-        return is_prop && p != own;
-    }
-    false
-}
+use crate::ctx::foreign_clause;
 
 /// Runs in progress: (started, description), for the hang watchdog.
 static IN_FLIGHT: Mutex<Vec<(u64, Instant, crate::alloc::RunDesc)>> = Mutex::new(Vec::new());
@@ -187,6 +181,7 @@ fn exec_run(spec: RunSpec<'_>) -> RunOut {
         .stack_size(32 << 20)
         .spawn(move || {
             ctx::begin_run(seed, replay, profile, thorough, tracing);
+            ctx::set_own(&own);
             crate::alloc::enter_run(desc);
             // self-test of the two process-level guards (never set by a registered command)
             match std::env::var("VERIF_SELFTEST_GUARD").as_deref() {
